@@ -194,6 +194,52 @@ def run_driver(cases_path, out_path):
     return p.returncode
 
 
+def _num(tok):
+    """Fraction for `123`, `-1.5e3`, `7/2`; None when the token is not a finite number."""
+    from fractions import Fraction
+    import math
+    try:
+        if "/" in tok:
+            return Fraction(tok)
+        f = float(tok)
+        if math.isnan(f) or math.isinf(f):
+            return None
+        # decimal text written by the implementation denotes the f64 it round-trips to
+        return Fraction(f) if any(c in tok for c in ".eE") else Fraction(int(tok))
+    except (ValueError, ZeroDivisionError):
+        return None
+
+
+def numeric_equal(impl_line, model_line, tol):
+    """Token-wise comparison for `"compare": "numeric"` properties.  Tokens are separated by blanks and
+    may carry a `key=` prefix (keys must match exactly).  A model value is a number (`a/b` allowed)
+    or an interval `lo..hi`; the implementation value must lie within it, widened by
+    `abs + rel * max(|lo|, |hi|)`.  Everything that does not parse as a number is compared as text."""
+    rel = float(tol.get("rel", 0.0))
+    ab = float(tol.get("abs", 0.0))
+    from fractions import Fraction
+    a, b = impl_line.split(), model_line.split()
+    if len(a) != len(b):
+        return False
+    for x, y in zip(a, b):
+        if x == y:
+            continue
+        kx, _, vx = x.rpartition("=")
+        ky, _, vy = y.rpartition("=")
+        if kx != ky:
+            return False
+        lo_s, sep, hi_s = vy.partition("..")
+        lo = _num(lo_s)
+        hi = _num(hi_s) if sep else lo
+        v = _num(vx)
+        if lo is None or hi is None or v is None:
+            return False
+        slack = Fraction(ab) + Fraction(rel) * max(abs(lo), abs(hi))
+        if not (lo - slack <= v <= hi + slack):
+            return False
+    return True
+
+
 def load_known():
     p = os.path.join(VERIF, "known_findings.json")
     if not os.path.exists(p):
